@@ -74,7 +74,27 @@ def _raw_programs():
         b = normal.sample(mu, 1.0)
         return c, ys, a, b
 
+    def adev_sites(mu):
+        # ADEV estimator sites run forward under seed (as simulate of a guide does), interleaved with plain sites
+        from genjax.adev import normal_reparam, normal_reinforce, uniform_reparam
+        a = normal_reparam(mu, 1.0)
+        b = normal.sample(mu, 1.0)
+        c = normal_reinforce(mu, 1.0)
+        d = uniform_reparam(0.0, 1.0)
+        e = uniform.sample(0.0, 1.0)
+        return a, b, c, d, e
+
+    def adev_in_scan(xs):
+        from genjax.adev import normal_reparam
+        def body(c, x):
+            z = normal_reparam(c + x, 1.0)
+            w = normal.sample(z, 1.0)
+            return w, (z, w)
+        return jax.lax.scan(body, 0.0, xs)
+
     return [
+        ("raw_adev_sites", adev_sites, (f32(0.3),), {}),
+        ("raw_adev_in_scan", adev_in_scan, (np.asarray([0.1, 0.2], dtype=np.float32),), {}),
         ("raw_cond_static_flag", cond_static_flag, (f32(0.3),), {}),
         ("raw_scan_static_then_sites", scan_static_then_sites, (f32(0.3),), {}),
         ("raw_two_same", two_same, (f32(0.3),), {}),
